@@ -100,6 +100,8 @@ SPECS["C07"] = dict(
              params=dict(quick=dict(toklen=3, keylen=2), thorough=dict(toklen=4, keylen=3)), witnesses=["verified", "expired"]),
         dict(name="perturb", pkg="sdk/go/arvados", harness=["arvados/c07_sig.go"], entry="GosymH_C07_perturb", replay="engine",
              params=dict(quick=dict(toklen=2, keylen=2), thorough=dict(toklen=3, keylen=3)), witnesses=["invalid", "missing", "perturbed-expiry-in-the-past"]),
+        dict(name="signmanifest", pkg="sdk/go/arvados", harness=["arvados/c07_sig.go"], entry="GosymH_C07_signmanifest", replay="engine",
+             witnesses=["done"]),
     ],
 )
 
